@@ -74,9 +74,11 @@ class Exec {
   // ---- C15: descriptors
   struct FdIdent { unsigned long dev, ino; };
   std::map<std::pair<int, uint32_t>, std::vector<FdIdent>> fd_idents;   // (sender, serial) -> the open files attached, in order
+  std::map<int, uint32_t> fd_surplus_sent;    // sender -> serial of its message that attached more descriptors than announced
   std::map<int, int64_t> fd_surplus;          // sender that attached more descriptors than announced -> when
   std::vector<size_t> fd_checked;             // per client: got[] index up to which descriptors were compared
   void check_fds(int ci);
+  std::map<int, int64_t> hello_done_us;       // when the bus processed each client's Hello
   // ---- C19: activation
   size_t procs_seen = 0;
   std::map<std::string, int> activation_pid;   // name -> pid of the process started for its current / last activation
